@@ -898,7 +898,7 @@ def d16_8(ctx):
     for label, valid, micro, status in (("valid reply", True, False, bytes([b0, b1])), ("valid reply, unknown key-switch bytes", True, True, b"\xfe\xfd"), ("failed reply", False, False, None)):
         seen = {}
         gm = self_call("generic_message", lambda a, k: seen.update(k) or _resp(valid, value={"vendor": "Rockwell", "status": status} if valid else None, error=None if valid else "Service not supported"))
-        kind, res = run_function(ctx, lx.module, fn, {"self": Obj(_micro800=micro)}, call_hook=gm, deep=False)
+        kind, res = run_function(ctx, lx.module, fn, {"self": Obj(_micro800=micro, _info={"vendor": "an earlier device", "keyswitch": "EARLIER", "status": b"\x00\x00", "name": "plc"})}, call_hook=gm, deep=False)
         key = ckey(lx.key + ".get_plc_info", f"witness:{label}")
         if kind == "unknown":
             ctx.undecided(key, fn, f"get_plc_info not foldable on a {label}: {res}")
